@@ -24,6 +24,6 @@ if __name__ == "__main__":
     netlev.run(pid, ck)
     ck.counters["distinct_nontrivial"] = ck.counters.get("states", 0)
     ck.finish(adjshape.RULES[pid] + " || network level: every levelling network with 3 (thorough: 4) points from the candidate rows {dh(i,j), observed height(i)} up to 4 (5) observations x covariance layouts (stdev attributes / bands 0-2, two value families) x status patterns (fixed / free / constrained heights) x 4 algorithms through the gama-local executable; dense reference (exact linear model); for C03 additionally every --cov-band in {-1..dim}. states = solver-level configurations (%d) + generated networks; transitions = solver runs + gama-local executions" % s1,
-              assumptions=["integer design matrices with entries in {-2..2}, n<=%s unknowns; reals off the lattice are not covered" % ("4" if ck.tier == "thorough" else "3"),
+              assumptions=["integer design matrices with entries in {-2..2}, n<=4 unknowns, m<=%s rows; reals off the lattice are not covered" % ("5 (reduced covariance layouts for n=4,m=5)" if ck.tier == "thorough" else "4 (3 for n=4)"),
                            "solver level tolerance 1e-8*scale; network level: printed precision of the XML result",
                            "network level restricted to linear (levelling) networks; non-linear networks are compared between algorithms by C06/C07/C09"])
